@@ -216,3 +216,87 @@ def check_kill_points(kill_after: int, early_unlink: bool) -> bool:
         kernel.discard(nm)
     run_main([_line(c, nm, t) for c, nm, t in msgs], cleanup={"semlock": sweep_unlink})
     return not kernel  # whatever the kill point, the name does not outlive the tree
+
+
+def check_copy_after_release(n_copies: int, released_first: bool, kind: int) -> bool:
+    """
+    pre: 1 <= n_copies <= 2 and 0 <= kind <= 1
+    post: _
+    """
+    # an unpickled copy (what a child process builds from the pickled lock of its parent) never creates, owns,
+    # registers or unlinks a named semaphore - also when it is rebuilt after the creator already released the
+    # object (parent dropped the lock right after starting the child): the copy may fail, it must not re-create
+    n_copies, kind = _conc(n_copies, 2), _conc(kind, 1)
+    log = Log()
+    kernel = set()
+    msgs = []
+    finalizers = []
+    collide = [0]
+
+    def unlink(name):
+        if name not in kernel:
+            raise FileNotFoundError(name)
+        kernel.discard(name)
+        log.add("unlinked", name)
+
+    class CS(_CSem):
+        def __init__(self, *a):
+            _CSem.__init__(self, kernel, collide, log, *a)
+
+        @staticmethod
+        def _rebuild(handle, kind, maxvalue, name):
+            if name not in kernel:
+                raise FileNotFoundError(name)  # sem_open without O_CREAT on a name that was unlinked
+            log.add("rebuilt", name)
+            return NS(name=name, kind=kind, maxvalue=maxvalue, handle=handle,
+                      acquire=lambda *a: True, release=lambda: None)
+
+    saved = (sy._SemLock, sy.sem_unlink, sy.resource_tracker, sy.util, sy.assert_spawning)
+    saved_rand = sy.SemLock._rand
+    sy.SemLock._rand = iter("name%d" % j for j in range(100))
+    sy._SemLock = CS
+    sy.sem_unlink = unlink
+    sy.resource_tracker = NS(register=lambda nm, t: msgs.append(("REGISTER", nm, t)),
+                             unregister=lambda nm, t: msgs.append(("UNREGISTER", nm, t)))
+    sy.util = NS(debug=lambda *a: None, register_after_fork=lambda o, f: None,
+                 Finalize=lambda obj, cb, args=(), exitpriority=None: finalizers.append((obj, cb, args)))
+    sy.assert_spawning = lambda o: None
+    try:
+        cls = (sy.Lock, sy.RLock)[kind]
+        s = cls()
+        name = s._semlock.name
+        state = s.__getstate__()
+        if released_first:
+            obj, cb, args = finalizers[0]
+            cb(*args)  # real SemLock._cleanup: unlink + UNREGISTER
+        base = (len(finalizers), list(msgs), set(kernel), log.count("created"))
+        for _ in range(n_copies):
+            c = cls.__new__(cls)
+            try:
+                c.__setstate__(state)
+                failed = False
+            except FileNotFoundError:
+                failed = True
+            if failed and not released_first:
+                return False  # a copy of a live semaphore always rebuilds
+            if not failed and c._semlock.name != name:
+                return False
+            if (len(finalizers), list(msgs), set(kernel), log.count("created")) != base:
+                return False  # the copy created / registered / removed something
+    finally:
+        sy._SemLock, sy.sem_unlink, sy.resource_tracker, sy.util, sy.assert_spawning = saved
+        sy.SemLock._rand = saved_rand
+    if not released_first:
+        obj, cb, args = finalizers[0]
+        saved2 = (sy.sem_unlink, sy.resource_tracker)
+        sy.sem_unlink = unlink
+        sy.resource_tracker = NS(register=lambda nm, t: msgs.append(("REGISTER", nm, t)),
+                                 unregister=lambda nm, t: msgs.append(("UNREGISTER", nm, t)))
+        try:
+            cb(*args)
+        finally:
+            sy.sem_unlink, sy.resource_tracker = saved2
+    lines = [_line(c_, nm, t) for c_, nm, t in msgs]
+    tlog = run_main(lines, cleanup={"semlock": unlink})
+    leaked = [e for e in tlog if e[0] == "warn" and "leaked" in e[1]]
+    return not kernel and not leaked and log.count("unlinked", name) == 1
